@@ -16,7 +16,7 @@ pub fn canon(v: &Value) -> Vec<u8> {
 pub enum SigSpec<'a> {
     /// genuine signature by `key` over the document
     Valid(&'a PoolKey),
-    /// a second, separately produced signature by `key` over the document
+    /// a second, separately produced signature by `key` over the document, the key id in upper-case hex
     ValidAgain(&'a PoolKey),
     /// genuine signature by `key` with one bit flipped
     Corrupt(&'a PoolKey),
@@ -29,7 +29,8 @@ pub enum SigSpec<'a> {
 pub fn sig_entry(spec: &SigSpec<'_>, msg: &[u8]) -> Value {
     match spec {
         SigSpec::Valid(k) => json!({"keyid": k.id, "sig": hex::encode(k.sign(msg))}),
-        SigSpec::ValidAgain(k) => json!({"keyid": k.id, "sig": hex::encode(k.sign_fresh(msg))}),
+        // the key id spelled in the other hex case: it names the same key
+        SigSpec::ValidAgain(k) => json!({"keyid": k.id.to_uppercase(), "sig": hex::encode(k.sign_fresh(msg))}),
         SigSpec::Corrupt(k) => {
             let mut s = k.sign(msg);
             let n = s.len();
